@@ -20,6 +20,10 @@ structure Deliv where
   /-- the packet's answer-section PTR owner names (for the "for us" rule) -/
   ptrAnswers : List BList
   r : Wire.Rec
+  /-- section of the packet the record was in: 0 answer, 1 authority, 2 additional -/
+  sect : Nat := 0
+  /-- owner names (lower case) of the A / AAAA records in the packet's answer section -/
+  addrAnswers : List BList := []
   deriving Repr, Inhabited
 
 def deliveriesOn (links : Option (List (Nat × Bool))) (iters : List Iter) (d : Nat) : List Deliv :=
@@ -32,7 +36,9 @@ def deliveriesOn (links : Option (List (Nat × Bool))) (iters : List Iter) (d : 
       | .ok m =>
         if m.flags / 32768 % 2 == 1 then
           let ptrs := (m.answers.filter (·.ty == 12)).map (·.name)
-          (m.answers ++ m.authorities ++ m.additionals).map fun r => { k, t := it.now, ifi, ptrAnswers := ptrs, r }
+          let addrs := (m.answers.filter fun r => r.ty == 1 || r.ty == 28).map fun r => lower r.name
+          let mk (sect : Nat) (r : Wire.Rec) : Deliv := { k, t := it.now, ifi, ptrAnswers := ptrs, r, sect, addrAnswers := addrs }
+          m.answers.map (mk 0) ++ m.authorities.map (mk 1) ++ m.additionals.map (mk 2)
         else []
       | _ => []
 
@@ -320,7 +326,16 @@ def monitorC05 (script : List Cmd) (iters : List Iter) (d : Nat) : Option String
           -- The event is emitted somewhere inside iteration `k`, between its packets: only what
           -- was delivered in EARLIER iterations can be held against it, and a goodbye or a
           -- cache-flush inside iteration `k` may already have taken effect.
-          let live (x : Deliv) : Bool := x.k < k && us x && !purgedBetween calls d x.k k &&
+          -- a verify request caps the lifetime of the instance's SRV and address records at
+          -- request + timeout until an answer renews them: a record not delivered again after
+          -- the request (in a later iteration) may be gone from that deadline on
+          let capped (x : Deliv) : Bool := calls.any fun ((c, kv) : Cmd × Nat) =>
+            match c with
+            | .verify d' _ ms =>
+              d' == d && kv ≤ k && decide (((itArr[kv]?.map (·.now)).getD 0) + ms ≤ t + 1000) &&
+              !(ds.any fun y => us y && y.k > kv && y.k < k && sameKey y.r x.r)
+            | _ => false
+          let live (x : Deliv) : Bool := x.k < k && us x && !purgedBetween calls d x.k k && !capped x &&
             decide (t + 1000 < validUntilOf us ds x (k - 1)) && decide (t + 1000 < validUntilOf us ds x k) &&
             !(ds.any fun y => y.k == k && sameKey y.r x.r && y.r.ttl ≤ 1)
           let ptrLive := ds.any fun x => live x && x.r.ty == 12 && x.r.name == ty &&
@@ -330,7 +345,7 @@ def monitorC05 (script : List Cmd) (iters : List Iter) (d : Nat) : Option String
             match s.r.rdata with
             | .srv _ _ _ h => ds.any fun x => live x && (x.r.ty == 1 || x.r.ty == 28) && lower x.r.name == lower h
             | _ => false
-          if ptrLive && !srvs.isEmpty && addrLive && !verified && !ifaceChange then
+          if ptrLive && !srvs.isEmpty && addrLive && !ifaceChange then
             some s!"removed-while-PTR-SRV-and-address-live inst={hexOfBytes f} t={t}"
           else none
         | _, _ => some "unparsable-removed-event"
@@ -428,6 +443,52 @@ def monitorC17 (script : List Cmd) (iters : List Iter) (d : Nat) : Option String
             if verified || !(itArr[k]?.map (fun i => i.rx.isEmpty)).getD true then none
             else some s!"AddressesRemoved-lists-address-with-no-expired-record ip={hexOfBytes a.ip} t={t}"
           | none => none
+
+/-- `ok_C17`, completeness: while a search for a host name is open, an address record for that
+    name (any letter case) that reaches the daemon - for the first time in the history, with a
+    TTL above one second, in a packet the daemon takes in (no PTR answers, or a PTR answer of a
+    browsed type, or an address answer for a searched host: `handle_response`'s "for us" rule;
+    or any packet once accept_unsolicited is on) - is reported through AddressesFound on the
+    search's channel in the very iteration that reads the packet. -/
+def monitorC17Complete (script : List Cmd) (iters : List Iter) (d : Nat) : Option String :=
+  let ds := deliveriesOn (linksOf script d) iters d
+  let calls := processedCalls script iters cmdDaemon
+  let itArr := iters.toArray
+  let timeOf (k : Nat) := (itArr[k]?.map (·.now)).getD 0
+  -- searches of daemon d: (channel, host lower-cased, first iteration, last iteration it is certainly open)
+  let openAt (h : BList) (k0 : Nat) (to : Option Nat) (k : Nat) : Bool :=
+    k0 < k &&
+    !(calls.any fun ((c', k') : Cmd × Nat) =>
+        match c' with
+        | .stopResolve d' h' => d' == d && lower h' == lower h && k' ≥ k0 && k' ≤ k
+        | .resolve d' _ h' _ => d' == d && lower h' == lower h && k' > k0 && k' ≤ k
+        | .shutdown d' _ => d' == d && k' ≤ k
+        | _ => false) &&
+    (match to with | some ms => decide (timeOf k + 1 < timeOf k0 + ms) | none => true)
+  let searches := calls.filterMap fun ((c, k0) : Cmd × Nat) =>
+    match c with | .resolve d' ch h to => if d' == d then some (ch, h, k0, to) else none | _ => none
+  let ifaceChange := script.any fun c => match c with | .ifaces .. => true | _ => false
+  if ifaceChange then none else
+  searches.findSome? fun ((ch, h, k0, to) : Nat × BList × Nat × Option Nat) =>
+    ds.findSome? fun x =>
+      if !((x.r.ty == 1 || x.r.ty == 28) && lower x.r.name == lower h && x.r.ttl > 1 && openAt h k0 to x.k) then none else
+      let searchedHosts := searches.filterMap fun ((_, h', k0', to') : Nat × BList × Nat × Option Nat) =>
+        if openAt h' k0' to' x.k then some (lower h') else none
+      let takenIn := x.ptrAnswers.isEmpty || (x.ptrAnswers.any fun n => (browsedAt calls d x.k).contains n) ||
+        x.addrAnswers.any fun n => searchedHosts.contains n
+      let firstEver := !(ds.any fun y => y.k < x.k && (y.r.ty == 1 || y.r.ty == 28) && lower y.r.name == lower h &&
+        ipOf y.r == ipOf x.r)
+      if !takenIn || !firstEver then none else
+      match ipOf x.r with
+      | none => none
+      | some ip =>
+        let reported := (chanEvents iters d ch).any fun e =>
+          e.1 == x.k && e.2.headD "" == "hfound" &&
+          (match parseAddrsEvent e.2 with
+           | some (_, _, addrs) => addrs.any fun a => a.ip == ip
+           | none => false)
+        if reported then none
+        else some s!"address-of-searched-host-not-reported host={hexOfBytes h} ip={hexOfBytes ip} t={x.t}"
 
 /-! ### C20 -/
 
